@@ -183,3 +183,77 @@ pub fn first_diff(a: &[u8], b: &[u8]) -> Option<usize> {
         None
     }
 }
+
+/// Polls the inner future at most `left` times, then drops it (a cancellation point that does
+/// not involve time).
+pub struct CancelAfter<F> {
+    fut: Option<std::pin::Pin<Box<F>>>,
+    left: usize,
+}
+
+pub fn cancel_after<F: Future>(fut: F, polls: usize) -> CancelAfter<F> {
+    CancelAfter { fut: Some(Box::pin(fut)), left: polls }
+}
+
+impl<F: Future> Future for CancelAfter<F> {
+    type Output = Option<F::Output>;
+    fn poll(mut self: std::pin::Pin<&mut Self>, cx: &mut std::task::Context<'_>) -> std::task::Poll<Self::Output> {
+        use std::task::Poll;
+        if self.left == 0 {
+            self.fut = None;
+            return Poll::Ready(None);
+        }
+        self.left -= 1;
+        let r = self.fut.as_mut().expect("polled after completion").as_mut().poll(cx);
+        match r {
+            Poll::Ready(v) => {
+                self.fut = None;
+                Poll::Ready(Some(v))
+            }
+            Poll::Pending => {
+                if self.left == 0 {
+                    self.fut = None;
+                    Poll::Ready(None)
+                } else {
+                    Poll::Pending
+                }
+            }
+        }
+    }
+}
+
+/// Rendering of a `ConnectionError` that is stable and comparable.
+pub fn conn_err(e: &wtransport::error::ConnectionError) -> String {
+    use wtransport::error::ConnectionError as E;
+    match e {
+        E::ApplicationClosed(c) => format!("ApplicationClosed({},{})", c.code().into_inner(), vcore::hex(c.reason())),
+        E::ConnectionClosed(c) => format!("ConnectionClosed({c})"),
+        E::LocallyClosed => "LocallyClosed".into(),
+        E::LocalH3Error(h) => format!("LocalH3Error({h})"),
+        E::TimedOut => "TimedOut".into(),
+        E::QuicProto(q) => format!("QuicProto({q})"),
+        E::CidsExhausted => "CidsExhausted".into(),
+    }
+}
+
+/// Display name the library uses for an H3 error code (ErrorCode's Display).
+pub fn h3_display(code: u64) -> &'static str {
+    match code {
+        0x33 => "DatagramError",
+        0x100 => "NoError",
+        0x103 => "StreamCreationError",
+        0x104 => "ClosedCriticalStreamError",
+        0x105 => "FrameUnexpectedError",
+        0x106 => "FrameError",
+        0x107 => "ExcessiveLoad",
+        0x108 => "IdError",
+        0x109 => "SettingsError",
+        0x10a => "MissingSettingsError",
+        0x10b => "RequestRejectedError",
+        0x10e => "MessageError",
+        0x200 => "DecompressionError",
+        0x3994_bd84 => "BufferedStreamRejected",
+        0x170d_7b68 => "SessionGone",
+        _ => "?",
+    }
+}
